@@ -325,6 +325,11 @@ func Seed() int {
 // WriteEvidence writes /verif/evidence/<id>.json.
 func WriteEvidence(ev *Evidence) error {
 	dir := filepath.Join(VerifDir(), "evidence")
+	if d := os.Getenv("VERIF_EVIDENCE_DIR"); d != "" {
+		// runs against a scratch copy of the repository (seeded changes, mutants) keep their evidence apart:
+		// /verif/evidence describes runs against /repo only
+		dir = d
+	}
 	os.MkdirAll(dir, 0o755)
 	ev.Seed = Seed()
 	b, err := json.MarshalIndent(ev, "", " ")
